@@ -48,8 +48,9 @@ Definition model_round (c : fcase) (t : list N) : option (journal * list (N * N)
 
 Definition round_ok (c : fcase) (t : list N) (errs : list (N * N)) (es : list fedit) (t' : list N) : bool :=
   match model_round c t with
-  | Some (_, merrs, mes) =>
-      errs_eqb merrs errs && list_eqb fe_eqb mes es && option_eqb beq (apply_edits t es) (Some t')
+  | Some (j, merrs, mes) =>
+      errs_eqb merrs errs && list_eqb fe_eqb mes es && option_eqb beq (apply_edits t es) (Some t') &&
+      post_lines_ok j (split_lf t)              (* the premise of C04_frame / C05_edits_wf *)
   | None => false
   end.
 
